@@ -71,6 +71,9 @@ def model_case(case: dict) -> dict:
         for p in nd["preds"]:
             if [nid[p], nid[nd["name"]]] not in edges:
                 edges.append([nid[p], nid[nd["name"]]])
+    for src, _field, later in case.get("back") or []:
+        if [nid[later], nid[src]] not in edges:
+            edges.append([nid[later], nid[src]])
     # the execution graph adds connections while scanning nodes in order and, per node, its fields in order
     return {
         "nodes": [nid[n] for n in names],
@@ -106,9 +109,14 @@ def gen_source(case: dict, uid: str) -> str:
         elif nd.get("inherit") and nd.get("combine_inherited"):
             expr += f".combine('{nd['preds'][0]}.idx')"
         lines.append(f"    {nm} = workflow.add({expr}, name={nm!r})")
+    for src, field, later in case.get("back") or []:
+        # a connection assigned after the nodes exist: `later`'s output into an input of the earlier node `src`
+        lines.append(f"    {src}.inputs.d{field} = {later}.out")
     outs = [nd["name"] for nd in case["nodes"]]
+    body_cls = "BodyT" if case.get("typed") else "Body"
+    lines = [ln.replace("workflow.add(Body(", f"workflow.add({body_cls}(") for ln in lines]
     return (
-        "import typing as ty\nfrom pydra.compose import workflow\nfrom harness.engines.sched_worker import Body\n\n"
+        f"import typing as ty\nfrom pydra.compose import workflow\nfrom harness.engines.sched_worker import Body, BodyT\n\n"
         f"@workflow.define(outputs={[f'o_{o}' for o in outs]!r})\n"
         f"def W_{uid}(ctl: str, mode: str):\n" + "\n".join(lines) + "\n    return " + ", ".join(f"{o}.out" for o in outs) + "\n"
     )
@@ -263,16 +271,14 @@ class Player:
                 else:
                     mv = self.choose(pending)
                 self.schedule.append(mv)
+                if os.environ.get("VERIF_SCHED_TRACE"):
+                    print("PLAY", r, pending, mv, file=sys.stderr, flush=True)
                 await self.play_round(mv, pending)
         except asyncio.CancelledError:
             raise
         except BaseException as e:  # noqa: BLE001
             c.player_error = e
-            # unblock everything so that the submission can end
-            for tbl in (c.start_gate, c.fin_gate):
-                for f in tbl.values():
-                    if not f.done():
-                        f.set_result(True)
+            c.abort()  # unblock everything so that the submission can end
             raise
 
 
@@ -359,7 +365,10 @@ def run_controlled(case: dict, scratch: Path) -> dict:
     W.CONTROL = ctl
     outcome, msg, outputs = "ok", "", None
     try:
-        worker = W.VerifWorker(n_procs=max(2, njobs))
+        # enough processes for every body the schedule may open at once; one more than the limit, so that a
+        # dispatcher that oversteps the limit shows up as an extra open body instead of a queue in the pool
+        n_procs = case.get("n_procs") or (min(njobs, 8) if k is None else min(njobs, k + 1))
+        worker = W.VerifWorker(n_procs=max(2, n_procs))
         sub = W.ObsSubmitter(worker=worker, cache_root=cache_root, max_concurrent=(float("inf") if k is None else k))
         with sub:
             loop = sub.loop
@@ -367,6 +376,16 @@ def run_controlled(case: dict, scratch: Path) -> dict:
             ctl.wake = asyncio.Event()
             player = Player(case, ctl)
             ptask = loop.create_task(player.run())
+            if os.environ.get("VERIF_SCHED_TRACE"):
+                import signal
+
+                def _dump():
+                    for t in asyncio.all_tasks(loop):
+                        print("TASK", t.get_name(), t, file=sys.stderr, flush=True)
+                        t.print_stack(file=sys.stderr)
+                    print("CTL returned", ctl.returned, "seen_s", ctl.seen_s, "truth", player.truth, file=sys.stderr, flush=True)
+
+                loop.add_signal_handler(signal.SIGUSR2, _dump)
             try:
                 res = sub(wf, raise_errors=True)
                 outputs = {nd["name"]: canon(getattr(res.outputs, "o_" + nd["name"])) for nd in case["nodes"]}
@@ -378,10 +397,7 @@ def run_controlled(case: dict, scratch: Path) -> dict:
                 outcome, msg = type(e).__name__, str(e)
             finally:
                 # let every gated coroutine finish, then stop the player
-                for tbl in (ctl.start_gate, ctl.fin_gate):
-                    for f in tbl.values():
-                        if not f.done():
-                            f.set_result(True)
+                ctl.abort()
                 ptask.cancel()
                 try:
                     loop.run_until_complete(asyncio.gather(ptask, return_exceptions=True))
@@ -393,6 +409,8 @@ def run_controlled(case: dict, scratch: Path) -> dict:
                 except Exception:  # noqa: BLE001
                     pass
         ctl.read_log()
+        if ctl.livelock:
+            outcome = "LIVELOCK"
         if ctl.player_error is not None and outcome not in ("LIVELOCK",):
             outcome, msg = "DEVICE-TIMEOUT", f"player: {ctl.player_error!r}; {player.diverged}"
         # body intervals: order of S/E lines in the (append-only) body log
@@ -411,7 +429,11 @@ def run_controlled(case: dict, scratch: Path) -> dict:
             sched.append({})  # fetch_finished calls with nothing pending: the loop did not yield, no moves
         kind = None
         ticks = sum(1 for e in ctl.events if e[0] == "Z")
-        if ticks >= 11 and outcome not in ("ok", "LIVELOCK", "DEVICE-TIMEOUT") and "Workflow job " not in msg[:40]:
+        if outcome == "ValueError" and "cannot be sorted as it contains a cycle" in msg:
+            kind = "cycle"
+        elif outcome == "RuntimeError" and "have already been accessed and therefore cannot set" in msg:
+            kind = "rejected"  # a (typed) back edge refused by Node.Inputs.__setattr__ while the workflow is constructed
+        elif ticks >= 11 and outcome not in ("ok", "LIVELOCK", "DEVICE-TIMEOUT") and "Workflow job " not in msg[:40]:
             # raised inside the stall detector (its diagnostic text crashes with TypeError when a node never started)
             kind = "stall"
         elif outcome == "RuntimeError":
@@ -510,7 +532,7 @@ def child_main():
 # harness side: run cases in child interpreters with a watchdog
 
 
-def run_cases(cases: list[dict], scratch: Path, per_case_timeout: float = 150.0) -> list[dict]:
+def run_cases(cases: list[dict], scratch: Path, per_case_timeout: float = 600.0) -> list[dict]:
     """Run the cases in one child; a case that exceeds the watchdog is reported as outcome HANG and the child restarted."""
     from harness import core
 
@@ -553,7 +575,7 @@ def run_cases(cases: list[dict], scratch: Path, per_case_timeout: float = 150.0)
     return results
 
 
-def run_cases_parallel(cases: list[dict], scratch: Path, nproc: int = 4, per_case_timeout: float = 200.0) -> list[dict]:
+def run_cases_parallel(cases: list[dict], scratch: Path, nproc: int = 4, per_case_timeout: float = 600.0) -> list[dict]:
     """the same, spread over `nproc` child interpreters (all synchronisation is on files/events, so load is harmless)"""
     from concurrent.futures import ThreadPoolExecutor
 
@@ -718,6 +740,8 @@ def impl_view(case: dict, obs: dict) -> tuple[dict, list]:
 
 
 def model_view(case: dict, ans: dict) -> tuple[dict | None, list]:
+    if ans is not None and ans.get("status") == "cycle":
+        return {"sorted": None, "rounds": [], "outcome": "cycle", "named": [], "executed": [], "maxopen": 0}, []
     if ans is None or "rounds" not in ans:
         return None, []
     mc = model_case(case)
@@ -809,6 +833,12 @@ def reference_outputs(case: dict) -> dict:
 # shared correspondence step of the property modules C14-C18
 
 
+def load_corpus(pid: str) -> list[dict]:
+    """corpus/sched/<pid>.jsonl: one case per line (witnesses of known / repaired findings, hand-made schedules)"""
+    p = Path(__file__).resolve().parent.parent.parent / "corpus" / "sched" / f"{pid}.jsonl"
+    return [json.loads(line) for line in p.read_text().splitlines() if line.strip()]
+
+
 def njobs(case: dict) -> int:
     return len(all_tags(case))
 
@@ -829,12 +859,17 @@ def explore(ctx, cases: list[dict], spec, what: str, nproc: int | None = None, d
 
     if not cases:
         return []
-    nproc = nproc or ctx.pick(6, 8)
+    nproc = nproc or ctx.pick(4, 6)
+    t0 = time.time()
     obs = run_cases_parallel(cases, ctx.scratch, nproc)
+    t1 = time.time()
     infra = [o for o in obs if o.get("outcome") in ("HARNESS-EXCEPTION", "CHILD-DIED")]
     if infra:
         raise core.Infra("sched device failed: " + json.dumps(infra[0])[-800:])
     ans = ctx.driver("Sched", [model_query(c, o.get("schedule") or []) for c, o in zip(cases, obs)])
+    tm = ctx.extra.setdefault("phase_seconds", {"implementation": 0.0, "model_driver": 0.0, "since_start_at_first_case": round(t0 - ctx.t0, 1)})
+    tm["implementation"] = round(tm["implementation"] + t1 - t0, 1)
+    tm["model_driver"] = round(tm["model_driver"] + time.time() - t1, 1)
     out = []
     for i, (c, o) in enumerate(zip(cases, obs)):
         iv, it = impl_view(c, o)
@@ -843,6 +878,9 @@ def explore(ctx, cases: list[dict], spec, what: str, nproc: int | None = None, d
             mv, mt = None, []
         else:
             mv, mt = model_view(c, ans[i]) if ans is not None else (None, [])
+        if iv.get("outcome") == "rejected":
+            mv, mt = None, []  # the workflow was never constructed: outside the scheduler model
+            ctx.count("back edge rejected at construction (not modelled)")
         ok, detail = spec(c, o)
         rec = dict(c)
         rec["script"] = o.get("schedule")  # replayable: the recorded schedule
